@@ -152,6 +152,19 @@ std::string run_case(const Args& a) {
   };
   std::vector<Box> queries;
   for (int i = 0; i < nq; i++) queries.push_back(rnd_box(r, 9, i % 3));
+  {
+    // unbounded query boxes: slabs, half-spaces, everything; and the canonical empty box (skipped by the library)
+    const double inf = std::numeric_limits<double>::infinity();
+    Box slab(vec3(-inf, -inf, 2.0), vec3(inf, inf, 3.0));
+    Box half(vec3(3.5, -inf, -inf), vec3(inf, inf, inf));
+    Box all(vec3(-inf), vec3(inf));
+    Box ray(vec3(1.0, 1.0, -inf), vec3(1.0, 1.0, inf));
+    queries.push_back(slab);
+    queries.push_back(half);
+    queries.push_back(all);
+    queries.push_back(ray);
+    queries.push_back(Box());
+  }
   d = query_boxes(queries, ls.boxes, "box_query");
   if (!d.empty()) return d;
   // self collision (query i skips leaf i)
@@ -244,6 +257,32 @@ std::string run_case(const Args& a) {
       if (!d.empty()) return d;
     } else if (n >= 2) {
       return "bvh2d:empty_for_n>=2";
+    }
+    // the production entry point (PAR builds: thread-local pair recorders combined and radix-sorted)
+    {
+      std::vector<vec2> verts;
+      std::vector<EdgeM> edges;
+      std::vector<Box2> eb;
+      for (int i = 0; i < n; i++) {
+        vec2 p0(r.below(40) + 0.25 * (i % 3), r.below(40)), p1 = p0 + vec2(r.uni(0.1, 3), r.uni(-3, 3));
+        verts.push_back(p0);
+        verts.push_back(p1);
+        edges.push_back({2 * i, 2 * i + 1, 1});
+        eb.push_back(Box2(p0, p1));
+      }
+      for (int pass = 0; pass < 2; pass++) {
+        BVH b3 = pass == 0 ? BVHBuildFromBoxes(eb) : BVH();
+        std::vector<std::pair<int, int>> pairs;
+        CollectIntersectionPairs(edges, verts, 1e-9, eb, b3, pairs);
+        Pairs want;
+        for (int i = 0; i < n; i++)
+          for (int k = i + 1; k < n; k++)
+            if (eb[k].DoesOverlap(eb[i])) want.push_back({i, k});
+        Pairs got(pairs.begin(), pairs.end());
+        if (!std::is_sorted(got.begin(), got.end())) return std::string(pass == 0 ? "edge_pairs_bvh" : "edge_pairs_sweep") + ":not_sorted";
+        d = compare_pairs(got, want, pass == 0 ? "edge_pairs_bvh" : "edge_pairs_sweep");
+        if (!d.empty()) return d;
+      }
     }
   }
   return "";
